@@ -174,6 +174,30 @@ def tokenize_tables(lib):
                 g = lits[0]['value']
                 out['groups'].append(g)
                 ms = [m for m in walk(e['then']) if m['k'] == 'Match' and any(const_str(p) is not None for a in m['arms'] for p in flat_pats(a['pat']))]
+                if not ms:
+                    # the table may live in a new helper `fn table(&str) -> Option<Token>` whose Some(..) result is pushed
+                    import facts as _facts
+                    for mm in walk(e['then']):
+                        if mm['k'] != 'Match': continue
+                        sc = mm['scrutinee']
+                        while sc['k'] in ('Use', 'Borrow', 'Deref', 'NeverToAny'): sc = sc.get('source') or sc.get('arg')
+                        if sc['k'] != 'Call': continue
+                        hg = callee_name(sc)
+                        ht = lib.ithir.get(hg) if hg and hg not in _facts.baseline_fns() else None
+                        if ht is None: continue
+                        pushes_payload = False
+                        for a in mm['arms']:
+                            p = a['pat']
+                            while p['k'] in ('Deref', 'DerefPattern'): p = p['sub']
+                            if p['k'] == 'Variant' and p['variant'] == 'Some' and p['subs']:
+                                q = p['subs'][0]['pat']
+                                while q['k'] in ('Deref', 'DerefPattern'): q = q['sub']
+                                if q['k'] == 'Binding':
+                                    for x in walk(a['body']):
+                                        if x['k'] == 'Call' and callee_name(x) == 'std::vec::Vec::push' and any(y['k'] in ('VarRef', 'UpvarRef') and y['var'] == q['var'] for y in walk(x['args'][1])): pushes_payload = True
+                        if not pushes_payload: continue
+                        ms = [m for m in walk(ht['body']) if m['k'] == 'Match' and any(const_str(p) is not None for a in m['arms'] for p in flat_pats(a['pat']))]
+                        if ms: break
                 if ms:
                     tab = {}
                     m = ms[0]
